@@ -178,8 +178,8 @@ func vFanTemplates(proj map[string]interface{}) []*vEntry {
 // vMutating reports whether a template can change membership / nickname / session state, so that the
 // read-only battery after it can show damage that only a later reader trips over.
 func vMutating(e *vEntry) bool {
-	if e.T != "line" {
-		return true
+	if e.T != "line" || e.Addr != "" {
+		return true // (a line from another address may close the session: banned addresses)
 	}
 	d := strings.ToUpper(e.Data)
 	if f := strings.Fields(d); len(f) >= 3 && (f[0] == "MODE" || (len(f) >= 4 && f[1] == "MODE")) {
